@@ -226,3 +226,54 @@ def gradient_driver(evaluator=False, cname=None):
     cname = cname or ("ev_ndsplineeval_gradient" if evaluator else "ndsplineeval_gradient")
     hdr = "void %s(const double* x, const int* centers, double* evaluates)" % cname
     return Extracted(cname, hdr, body, r, MULTI_H, X.find_loops(body))
+
+# ---------------------------------------------------------------------------
+# splinetable::convolve (convolve.h): whole-function extraction for exact (E3-rational) execution
+CONVOLVE_H = "include/photospline/detail/convolve.h"
+CONVOLVE_SHADOWED = ("naxes", "strides", "coefficients")     # locals of convolve() that shadow members
+
+CONVOLVE_PRELUDE = r'''
+#include <stdint.h>
+#include <stddef.h>
+#include <stdbool.h>
+/* members (R1).  convolve() declares locals called naxes/strides/coefficients; `this->X` is rewritten to vp_this_X (R14) */
+uint32_t ndim; uint32_t* order; double** knots; uint64_t* nknots; double** extents;
+uint64_t* vp_this_naxes; uint64_t* vp_this_strides; float* vp_this_coefficients;
+#define vp_this_knots knots
+#define vp_this_nknots nknots
+#define vp_this_order order
+#define vp_this_extents extents
+/* storage primitives, implemented by the interpreter (hooks): objects are sized exactly, freed objects die */
+void* vp_new(size_t elsize, size_t n);            /* new T[n]                      */
+void* vp_allocate(size_t elsize, size_t n);       /* allocate<T>(n)   (allocator)  */
+void  vp_deallocate(void* p, size_t n);           /* deallocate(p, n) (allocator)  */
+void  vp_sort_double(double* first, double* last);/* std::sort on doubles          */
+void  vp_copy(const void* first, const void* last, void* out);   /* std::copy      */
+void  vp_fill_n(void* first, size_t n, double v);                /* std::fill_n    */
+double divdiff(const double* x, const double* y, size_t n);
+unsigned int factorial(unsigned int n);
+double convoluted_blossom(const double* x, size_t nx, const double* y, size_t ny, double z, const double* bags, size_t nbags);
+'''
+
+def convolve_function():
+    s = src(CONVOLVE_H)
+    start, header, body, end = X.find_function(s, r"splinetable<Alloc>::convolve\s*\(")
+    r = X.Rules(); r.counts["R1_member"] = 1
+    body = X.strip_comments(body)
+    body = r.sub("R14_this", r"this->", "vp_this_", body, must_fire=True)
+    body = r.sub("R15_unique_ptr_of_unique_ptr", r"std::unique_ptr<std::unique_ptr<double\[\]>\[\]>\s+(\w+)\(new std::unique_ptr<double\[\]>\[(.*?)\]\);",
+                 r"double** \1 = (double**)vp_new(sizeof(double*), \2); for (uint32_t vp_i = 0; vp_i < \2; vp_i++) \1[vp_i] = NULL;", body, must_fire=True)
+    body = r.sub("R15_unique_ptr_array", r"std::unique_ptr<(\w+)\[\]>\s+(\w+)\(new \1\[(.*?)\]\);", r"\1* \2 = (\1*)vp_new(sizeof(\1), \3);", body, must_fire=True)
+    body = r.sub("R15_reset", r"(\w+)\[(\w+)\]\.reset\(new double\[(.*?)\]\);", r"\1[\2] = (double*)vp_new(sizeof(double), \3);", body, must_fire=True)
+    body = r.sub("R15_get", r"\.get\(\)", "", body, must_fire=True)
+    body = r.sub("R16_sort", r"std::sort\(", "vp_sort_double(", body, must_fire=True)
+    body = r.sub("R16_copy", r"std::copy\(", "vp_copy(", body, must_fire=True)
+    body = r.sub("R16_fill_n", r"std::fill_n\(", "vp_fill_n(", body, must_fire=True)
+    body = r.sub("R17_allocate", r"allocate<(\w+)>\((.*?)\)(\s*[;+])", r"((\1*)vp_allocate(sizeof(\1), \2))\3", body, must_fire=True)
+    body = r.sub("R17_deallocate", r"(?<![A-Za-z0-9_])deallocate\(", "vp_deallocate(", body, must_fire=True)
+    body = r.sub("R3_float_literal", r"\b0\.f\b", "0.0f", body)
+    body = X.functional_casts(r, body)
+    for bad in ("std::", "this", "unique_ptr", "allocate<"):
+        if re.search(r"(?<![A-Za-z0-9_])" + re.escape(bad), body.replace("vp_this_", "")): raise ExtractionError("convolve(): unhandled C++ construct '%s' left after the rewrite rules" % bad)
+    hdr = "void convolve(const uint32_t dim, const double* conv_knots, size_t n_conv_knots)"
+    return Extracted("convolve", hdr, body, r, CONVOLVE_H, X.find_loops(body))
